@@ -82,6 +82,10 @@ def reads_for(rng, d, names, sweep):
         if d.users:
             cands.append('/usages?project_id=%s&user_id=%s' % (
                 pj, rng.choice(sorted(d.users))))
+        cands.append('/usages?project_id=%s&consumer_type=%s' % (
+            pj, rng.choice(['all', 'unknown', 'INSTANCE', 'MIGRATION',
+                            'CT_X', 'NOPE_TYPE', 'allzzz', 'unknown%0A',
+                            'all%0A', 'instance', 'ALL', 'unknownx', ''])))
     if rps:
         cands.append('/resource_providers?in_tree=%s' % u)
     if not sweep:
